@@ -46,7 +46,7 @@ def plan(tier, prop):
                             "preexisting_waiting", "fill_id_wrap",
                             "op_timeout", "ff_miss_start", "ff_miss_block",
                             "ff_miss_end", "full_blocks_plus_scattered",
-                            "complete_16x16_block"],
+                            "complete_16x16_block", "max_blocks_binary"],
         "knob_ranges": {"buffer_size": BUFFERS, "machine": "1x1..16x16 "
                         "(thorough also 64x64/255x255 sparse)",
                         "binaries": "1-4, 4 bytes .. 6 buffers",
@@ -239,6 +239,11 @@ class LoadEngine(object):
             size = 4 * (1 + t.draw(6) * (B // 4) + t.draw_small(B // 4, 0.5)
                         - (1 if t.draw(3) == 0 and B > 4 else 0))
             size = max(4, min(size, 200 * B))
+            if len(live) <= 16 and t.draw(25) == 0:
+                # the largest binary a flood fill can carry: 255 blocks (the
+                # count travels in one byte), give or take a word or a block
+                size = [255 * B, 255 * B - 4, 254 * B + 4, 254 * B][t.draw(4)]
+                w.probe("max_blocks_binary")
             name = "/sim/app%d_%d.aplx" % (self.n_loads, b)
             data = bytes(((b * 37 + self.n_loads * 11 + i * 7) ^ (i >> 8))
                          & 0xff for i in range(size))
